@@ -68,10 +68,10 @@ def _strategy(draw):
     mode = draw(st.sampled_from(["both", "both", "rename", "permute"]))
     amap, nmap = {}, {}
     if mode in ("both", "rename"):
-        new_a = draw(st.lists(st.sampled_from(POOL_A), min_size=len(an), max_size=len(an), unique=True))
+        new_a = draw(st.lists(st.sampled_from(POOL_A + ["q%d" % i for i in range(max(0, len(an) - 12))]), min_size=len(an), max_size=len(an), unique=True))
         amap = dict(zip(an, new_a))
         if draw(st.booleans()):
-            new_n = draw(st.lists(st.sampled_from(POOL_N), min_size=len(nn), max_size=len(nn), unique=True))
+            new_n = draw(st.lists(st.sampled_from(POOL_N + ["m%d" % i for i in range(max(0, len(nn) - 8))]), min_size=len(nn), max_size=len(nn), unique=True))
             nmap = dict(zip(nn, new_n))
     perm = list(range(len(spec["assets"])))
     if mode in ("both", "permute"):
@@ -161,13 +161,37 @@ def check(spec):
                 v0 = var[:-len(tail)] + inv_a[tail]
         n0 = node
         if node is not None:
-            if node in inv_n:
+            if a0 in struct_names:
+                # a structured asset names its internal nodes '<asset>_internal_<node>'; such a string may also be the
+                # (new) name of some other node - decided from the nodes this asset really has
+                hits = []
+                for inner in inner_nodes[a0]:
+                    if node == asset + "_internal_" + rn["nodes"].get(inner, inner):
+                        hits.append(a0 + "_internal_" + inner)
+                for outer in outer_nodes[a0]:
+                    if node == rn["nodes"].get(outer, outer):
+                        hits.append(outer)
+                if len(hits) == 1:
+                    n0 = hits[0]
+                elif len(hits) > 1:
+                    clash.append(node)
+            elif node in inv_n:
                 n0 = inv_n[node]
-            elif a0 in struct_names and node.startswith(asset + "_internal_"):
-                inner = node[len(asset + "_internal_"):]
-                n0 = a0 + "_internal_" + inv_n.get(inner, inner)
         return (a0, v0, n0, t)
+    inner_nodes, outer_nodes = {}, {}
+    for a in s1["assets"]:
+        if a["type"] == "structured":
+            outer_nodes[a["name"]] = list(a["nodes"])
+            inn = []
+            for x in a["assets"]:
+                for n_ in x.get("nodes", []):
+                    if n_ not in a["nodes"] and n_ not in inn:
+                        inn.append(n_)
+            inner_nodes[a["name"]] = inn
+    clash = []
     x1, missing, unused, dup = transfer.transfer(r2.op, np.asarray(res2.x, float), r1.op, rename=back)
+    if clash:
+        return out.drop("internal_node_label_equals_outer_node_name")     # EAO's own label scheme collides: not a renaming issue
     if missing:
         out.fail("variables of the original problem have no counterpart after renaming: %s" % missing[:3])
         return out
